@@ -37,6 +37,7 @@ type c07Script struct {
 	Prior      []aeadSpec    `json:"prior,omitempty"` // AEADs built earlier on the same Block (key field ignored)
 	Msgs       []c07Msg      `json:"msgs"`
 	Deliveries []c07Delivery `json:"deliveries"`
+	Giant      string        `json:"giant,omitempty"` // one message of 2^32 bytes or more (see giant.go); everything else is ignored
 }
 
 type c07 struct{}
@@ -46,7 +47,7 @@ func (c07) ID() string { return "C07" }
 
 func (c07) Plan(tier string) core.Plan {
 	if tier == "thorough" {
-		return core.Plan{Systematic: c07SysN, Seeded: 1500000}
+		return core.Plan{Systematic: c07SysN + len(c07Giants), Seeded: 1500000}
 	}
 	return core.Plan{Systematic: c07SysN, Seeded: 120000}
 }
@@ -58,10 +59,13 @@ var c07SysPt = []int{0, 1, 16, 17, 64, 100}
 
 const c07SysN = 6 * 2 * 2
 
+// thorough tier only: messages whose body, total length or additional data reach 2^32 bytes
+var c07Giants = []string{"body", "k3", "aad"}
+
 func (c07) Meta() core.Meta {
 	return core.Meta{
 		Level: "exploration",
-		Rule: "systematic: plaintext lengths {0,1,16,17,64,100} x tag sizes {12,16} x {assembly, portable}: every single-bit flip of the tag, every truncation of the ciphertext to 0..len-1 bytes, extensions by 1 and 16 bytes, first/last-bit flips of body, nonce and aad; seeded: 1-4 sealed messages per run (all length classes 0..1100, nonce sizes 1..300, tag sizes 12..16), 1-8 deliveries each through the wire: untouched, replayed, single-bit flip in body/tag/nonce/aad, truncation (incl. below the tag size), extension, tag truncated/extended, tag of A on body of B, nonce/aad of A with message B; opener destination nil / spare capacity / in place. " +
+		Rule: "systematic: plaintext lengths {0,1,16,17,64,100} x tag sizes {12,16} x {assembly, portable}: every single-bit flip of the tag, every truncation of the ciphertext to 0..len-1 bytes, extensions by 1 and 16 bytes, first/last-bit flips of body, nonce and aad; seeded: 1-4 sealed messages per run (all length classes 0..1100, nonce sizes 1..300, tag sizes 12..16), 1-8 deliveries each through the wire: untouched, replayed, single-bit flip in body/tag/nonce/aad, truncation (incl. below the tag size), extension, tag truncated/extended, tag of A on body of B, nonce/aad of A with message B; opener destination nil / spare capacity / in place. thorough tier only: three messages of 2^32 bytes and more (body 2^32+5 with a forged copy whose flipped bit lies beyond offset 2^32; total length 2^32+3; additional data 2^32+7), opened into a fresh destination and in place. " +
 			"non-trivial = the wire changed or replayed something, or the opener used a non-nil destination; distinct = distinct (path, nonce/tag size class, multiset of (corruption kind x field, plaintext length class, dst class, expected verdict))",
 		Components: map[string]string{"sm4 GCM Seal/Open (amd64 assembly)": "real", "crypto/cipher generic GCM over portable sm4 (path switch off)": "real", "wire": "stub (simulated corruption)", "arm64 assembly": "not run",
 			"oracle": "the wire's own record (byte identity with a sealed triple); keystream for the would-be plaintext from the library's own Seal of zeros"},
@@ -118,6 +122,9 @@ func c07GenMut(f *core.Rand, ptLen, tag, nonceLen, aadLen int) wire.Mut {
 }
 
 func (c07) Generate(idx int, r *core.Rand, tier string) core.Script {
+	if tier == "thorough" && idx >= c07SysN && idx < c07SysN+len(c07Giants) {
+		return &c07Script{Asm: true, AEAD: aeadSpec{NonceSize: 12, TagSize: 16}, Giant: c07Giants[idx-c07SysN]}
+	}
 	if idx < c07SysN {
 		i := idx
 		asm := i%2 == 0
@@ -203,7 +210,7 @@ func (c07) Decode(raw json.RawMessage) (core.Script, error) {
 	if err := json.Unmarshal(raw, &s); err != nil {
 		return nil, err
 	}
-	if len(s.Msgs) == 0 {
+	if len(s.Msgs) == 0 && s.Giant == "" {
 		return nil, fmt.Errorf("C07 script needs a message")
 	}
 	return &s, nil
@@ -228,6 +235,22 @@ func (c07) Execute(sc core.Script, keep bool) *core.Result {
 		res.Steps = log.Steps()
 		res.LogLines = log.Lines
 	}()
+	if s.Giant != "" {
+		obs, skipped := runGiant(s.Giant, s.Giant == "body", res, log)
+		res.Fingerprint, res.Nontrivial = "giant-"+s.Giant, !skipped
+		for _, o := range obs {
+			switch o.Kind {
+			case "authentic-rejected", "wrong-plaintext", "wrong-length", "forgery-accepted", "panic", "fault":
+				cl := o.Kind
+				if cl == "fault" {
+					cl = "panic"
+				}
+				res.Violation = &core.Violation{Class: cl, Op: "Open", Role: "giant", Param: s.Giant + ">=2^32", Detail: o.Op + ": " + o.Detail}
+				return res
+			}
+		}
+		return res
+	}
 	asm := s.Asm && AsmAvailable()
 	pathName := "portable"
 	if asm {
@@ -434,6 +457,9 @@ func (c07) Execute(sc core.Script, keep bool) *core.Result {
 
 func (c07) Shrinks(sc core.Script) []core.Script {
 	s := sc.(*c07Script)
+	if s.Giant != "" {
+		return nil // a single enumerated case: nothing to minimise
+	}
 	cp := func() *c07Script {
 		raw, _ := json.Marshal(s)
 		var c c07Script
